@@ -12,6 +12,7 @@ import (
 	"os"
 	"sort"
 
+	"qeepverif/internal/beh"
 	"qeepverif/internal/run"
 )
 
@@ -109,6 +110,15 @@ func doReplay(id, path string) int {
 			return 1
 		}
 		fmt.Printf("%s: witness %s no longer fails (verdict %d)\n", id, path, res.Verdict)
+		return 0
+	}
+	var bw run.BehWitness
+	if err := json.Unmarshal(rec.Witness, &bw); err == nil && bw.Behaviour != nil {
+		if d, _ := beh.Replay(bw.Behaviour); d != "" {
+			fmt.Printf("VIOLATION property=%s replay=%s\n  %s\n", id, path, d)
+			return 1
+		}
+		fmt.Printf("%s: witness %s no longer fails\n", id, path)
 		return 0
 	}
 	if fn, ok := replayers[id]; ok {
